@@ -200,7 +200,7 @@ async fn run_case(case: &Case) -> CaseOut {
     // last frame received by the master from each outstation (link activity), for the keep-alive rule
     let mut last_activity: Vec<u64> = vec![rig.now_ms(); n];
     let mut queue: Vec<Vec<(u32, u64)>> = vec![vec![]; n]; // user requests submitted, not yet transmitted: (id, t_submit)
-    // when a user request of each association was last transmitted
+                                                           // when a user request of each association was last transmitted
     let mut last_user_tx: Vec<Option<(u64, u64)>> = vec![None; n];
     let mut user_tx_count: u64 = 0;
     // more requests waiting than the master's message channel holds: the master may not know all of them yet
@@ -213,7 +213,8 @@ async fn run_case(case: &Case) -> CaseOut {
     let mut channel_free_since: u64 = rig.now_ms();
 
     // user requests by id: (outcome slot, whether the association's queue was full when it was submitted)
-    let pendings: Arc<Mutex<BTreeMap<u32, (crate::verif::rig::master::Pending, bool)>>> = Default::default();
+    let pendings: Arc<Mutex<BTreeMap<u32, (crate::verif::rig::master::Pending, bool)>>> =
+        Default::default();
     // requests refused with TooManyRequests are not waiting for anything
     macro_rules! purge_refused {
         () => {{
@@ -430,7 +431,10 @@ async fn run_case(case: &Case) -> CaseOut {
                 rig.settle().await;
                 // documented back-pressure: with max_queued_user_requests (16) requests of the association waiting,
                 // a further one fails with TooManyRequests instead of being queued
-                pendings.lock().unwrap().insert(id, (p, queue[a].len() >= 16));
+                pendings
+                    .lock()
+                    .unwrap()
+                    .insert(id, (p, queue[a].len() >= 16));
                 queue[a].push((id, rig.now_ms()));
                 if queue.iter().map(|q| q.len()).sum::<usize>() >= 15 {
                     saturated = true;
@@ -441,9 +445,15 @@ async fn run_case(case: &Case) -> CaseOut {
                 let id = next_user;
                 next_user += 1;
                 let mut h = rig.assocs[&addr(a)].handle.clone();
-                let p = rig.submit("write", async move { h.write_dead_bands(vec![DeadBandHeader::group34_var1_u16(vec![(id as u16, 5)])]).await });
+                let p = rig.submit("write", async move {
+                    h.write_dead_bands(vec![DeadBandHeader::group34_var1_u16(vec![(id as u16, 5)])])
+                        .await
+                });
                 rig.settle().await;
-                pendings.lock().unwrap().insert(id, (p, queue[a].len() >= 16));
+                pendings
+                    .lock()
+                    .unwrap()
+                    .insert(id, (p, queue[a].len() >= 16));
                 queue[a].push((id, rig.now_ms()));
                 if queue.iter().map(|q| q.len()).sum::<usize>() >= 15 {
                     saturated = true;
@@ -452,7 +462,16 @@ async fn run_case(case: &Case) -> CaseOut {
             Op::Chatter(a) => {
                 let a = (*a as usize * n) >> 16;
                 chatter_seq = (chatter_seq + 1) & 0x0F;
-                let f = Fragment { fir: true, fin: true, con: true, uns: true, seq: chatter_seq, func: func::UNSOLICITED_RESPONSE, iin: Some((0, 0)), objects: vec![] };
+                let f = Fragment {
+                    fir: true,
+                    fin: true,
+                    con: true,
+                    uns: true,
+                    seq: chatter_seq,
+                    func: func::UNSOLICITED_RESPONSE,
+                    iin: Some((0, 0)),
+                    objects: vec![],
+                };
                 rig.respond(addr(a), &f);
                 last_activity[a] = rig.now_ms();
                 if let Some(o) = &outstanding {
